@@ -246,15 +246,14 @@ func (w *World) Render(spec RenderSpec, sw io.Writer) (out string, err error, pi
 	w.beginPass()
 	w.rendered = true
 	var t tabular.Table = w.Core
-	if spec.Format%NFormats == FmtText && spec.Via%NVia != ViaPkg && DecoName(spec.Deco) == unknownDecoName {
-		// a text table set to an unknown decoration refuses to render; whether it
-		// runs the render callbacks before refusing is not specified
-		defer func() {
-			if len(w.cbEvents) == 0 {
-				w.passExpected = nil
-			}
-		}()
-	}
+	// a renderer that refuses the table (unknown decoration, no columns, no
+	// headers...) may or may not have run the render callbacks before refusing:
+	// an error together with no callback event at all is accepted as "no pass"
+	defer func() {
+		if err != nil && len(w.cbEvents) == 0 {
+			w.passExpected = nil
+		}
+	}()
 	rr, ok := w.wrapperFor(spec)
 	if ok {
 		if spec.ToWriter {
